@@ -71,3 +71,73 @@ def units(tier, seed):  # noqa: F811
             assumptions=["the TemplatedFile satisfies the C07 tiling invariant"],
             witnesses_required=["mapped"], sharded=True, timeout_s=300 if tier == "quick" else 1200))
     return us
+
+
+# ---------------------------------------------------------------- whole fix run: every tag of the source survives, in order
+T_LEAD = ["", "  ", "\n  ", "\t"]
+T_OPEN = ["{% if true %}", "{%- if true %}", "{%- if true -%}", "{% if true -%}"]
+T_BODY = ["SELECT 1", "\nSELECT  a,b\n", "  select a from t  "]
+T_EXPR = ["", " {{ 'x' }}", "{{- '' }}", "{#- note -#}"]
+T_CLOSE = ["{% endif %}", "{%- endif %}", "{% endif -%}", "{%- endif -%}"]
+T_TAIL = ["\n", "  \n", "", "\n\n"]
+_TAG = r"\{%.*?%\}|\{\{.*?\}\}|\{#.*?#\}"
+_LIN = []
+
+
+def tags_case(parts):
+    import logging
+    import re
+    from sqlfluff.core import FluffConfig, Linter
+    if not _LIN:
+        _LIN.append(Linter(config=FluffConfig(overrides={"dialect": "ansi", "exclude_rules": "JJ01"})))
+    src = "".join(parts)
+    logging.disable(logging.CRITICAL)
+    try:
+        lf = _LIN[0].lint_string(src, fix=True)     # REAL: templater, lexer, parser, every rule but JJ01, fix loop, patching
+        out = lf.fix_string()[0] if lf.tree is not None and lf.templated_file is not None else src
+    finally:
+        logging.disable(logging.NOTSET)
+    a, b = re.findall(_TAG, src, re.S), re.findall(_TAG, out, re.S)
+    return (None if a == b else f"source {src!r} fixed to {out!r}: template tags {a} became {b}"), out != src
+
+
+def _dims(tier):
+    q = tier == "quick"
+    return (("lead", T_LEAD), ("open", T_OPEN), ("body", T_BODY[:2] if q else T_BODY), ("expr", T_EXPR), ("close", T_CLOSE),
+            ("tail", T_TAIL[:3] if q else T_TAIL))
+
+
+def make_tags(tier="thorough"):
+    def factory(excluded=frozenset()):
+        def harness(c):
+            from symlite.values import choose
+            parts = [choose(c, n, alts) for n, alts in _dims(tier)]
+            problem, changed = tags_case(parts)
+            if changed:
+                c.witness("file_fixed")
+            if parts[0] and parts[1].startswith("{%-"):
+                c.witness("leading_whitespace_consumed_by_tag")
+            return problem is None
+        return harness
+    return factory
+
+
+def replay_tags(cex):
+    parts = [alts[int(cex.get(n, 0))] for n, alts in _dims("thorough")]
+    return tags_case(parts)[0]
+
+
+_units_pipeline_c10 = units
+
+
+def units(tier, seed):  # noqa: F811
+    from lib.runner import Unit
+    return _units_pipeline_c10(tier, seed) + [Unit(
+        name="c10.tags_survive_fix", functions=["Linter.lint_string(fix=True) / lint_fix_parsed", "sqlfluff.utils.reflow (reindent, respace: SourceFix producers)",
+                                                "generate_source_patches", "LintedFile.fix_string", "JinjaTemplater.process"],
+        bounds={"template": "lead + open tag + body + expression/comment + close tag + tail", "lead": T_LEAD, "open": T_OPEN, "body": T_BODY,
+                "expr": T_EXPR, "close": T_CLOSE, "tail": T_TAIL, "rules": "all but JJ01 (the stated exception)"},
+        make=make_tags(tier), replay=replay_tags,
+        stubs=["none: real jinja templater, parser, rules and patching; the template parts are solver-forked"],
+        outside=["templates outside this family", "other dialects"],
+        witnesses_required=["file_fixed", "leading_whitespace_consumed_by_tag"], sharded=True, timeout_s=900 if tier == "quick" else 2400)]
